@@ -353,8 +353,10 @@ pub struct CaseCache {
     pub group: usize,
 }
 
-const PATTERNS: &[&str] = &["a", "a+", "[a-c]+", "(a|b)c", "^a", "b$", "([0-9]+)-([a-z]+)", ".", "", "a*", "\\d+", "(?i)A", "(a)(b)?", "[0-9", "(", "\u{e9}+", "(x)|(y)", "^$", "aa", "[^a]", "*", "b", "c", "ab"];
-const SUBJECTS: &[&str] = &["a", "b", "abc", "aaa", "12-ab", "", "A", "\u{e9}\u{e9}", "bc", "xyz", "ab", "c", "x", "y", "7-z 8-q"];
+// near-duplicates on purpose: a cache that normalises, truncates or hashes its key badly
+// (trimmed, case-folded, prefix- or length-keyed) must be visible
+const PATTERNS: &[&str] = &["a ", " a", "A", "ba", "a+ ", "^a ", "aaaaaaaaaaaaaaaab", "aaaaaaaaaaaaaaaac", "(?i)a", "a", "a+", "[a-c]+", "(a|b)c", "^a", "b$", "([0-9]+)-([a-z]+)", ".", "", "a*", "\\d+", "(?i)A", "(a)(b)?", "[0-9", "(", "\u{e9}+", "(x)|(y)", "^$", "aa", "[^a]", "*", "b", "c", "ab"];
+const SUBJECTS: &[&str] = &["a ", " a", "ba", "aaaaaaaaaaaaaaaab", "aaaaaaaaaaaaaaaac", "a", "b", "abc", "aaa", "12-ab", "", "A", "\u{e9}\u{e9}", "bc", "xyz", "ab", "c", "x", "y", "7-z 8-q"];
 
 pub struct C13Cache;
 impl Check for C13Cache {
